@@ -15,14 +15,23 @@ VERIF = os.path.dirname(os.path.dirname(os.path.abspath(__file__)))
 props = [c["property_id"] for c in json.load(open(os.path.join(VERIF, "MANIFEST.json")))["checks"]]
 patches = sorted(glob.glob(os.path.join(VERIF, "benign", "*.patch")))
 args = sys.argv[1:]
+if "--jobs" in args:
+    _i = args.index("--jobs")
+    del args[_i:_i + 2]
 if "--prop" in args:
     i = args.index("--prop")
     props = [args[i + 1]]
     del args[i:i + 2]
 if args:
     patches = [p for p in patches if any(a in p for a in args)]
-bad = 0
-for patch in patches:
+import concurrent.futures
+
+jobs = 4
+if "--jobs" in sys.argv:
+    jobs = int(sys.argv[sys.argv.index("--jobs") + 1])
+
+
+def one(patch):
     wt = tempfile.mkdtemp(prefix="benign-")
     try:
         subprocess.check_call(["git", "-C", "/repo", "worktree", "add", "-f", "--detach", wt, "HEAD"],
@@ -30,18 +39,26 @@ for patch in patches:
         subprocess.check_call(["git", "-C", wt, "apply", "--whitespace=nowarn", patch])
         res = []
         for p in props:
-            r = subprocess.run([os.path.join(VERIF, "check"), p, "--repo", wt], capture_output=True, text=True, timeout=2400)
+            try:
+                r = subprocess.run([os.path.join(VERIF, "check"), p, "--repo", wt], capture_output=True, text=True,
+                                   timeout=2400)
+            except subprocess.TimeoutExpired:
+                res.append("%s TIMEOUT" % p)
+                continue
             if r.returncode != 0:
                 keys = re.findall(r"^  key:  (.*)$", r.stdout, re.M)
                 res.append("%s exit=%d %s" % (p, r.returncode, "; ".join(keys)[:200] or r.stdout[-200:]))
-        print("%-34s %s" % (os.path.basename(patch), "SILENT" if not res else "ALARM: " + " | ".join(res)))
-        bad += 1 if res else 0
+        return patch, res
     finally:
         subprocess.call(["git", "-C", "/repo", "worktree", "remove", "--force", wt], stdout=subprocess.DEVNULL,
                         stderr=subprocess.DEVNULL)
         shutil.rmtree(wt, ignore_errors=True)
-        tag = hashlib.sha256(wt.encode()).hexdigest()[:8]
-        for c in glob.glob(os.path.join(VERIF, ".cache", "*-" + tag)):
-            shutil.rmtree(c, ignore_errors=True)
+
+
+bad = 0
+with concurrent.futures.ThreadPoolExecutor(jobs) as ex:
+    for patch, res in ex.map(one, patches):
+        print("%-34s %s" % (os.path.basename(patch), "SILENT" if not res else "ALARM: " + " | ".join(res)), flush=True)
+        bad += 1 if res else 0
 print("%d benign refactorings, %d raised an alarm or broke a check" % (len(patches), bad))
 sys.exit(1 if bad else 0)
